@@ -9,6 +9,7 @@ import OxiddModel.Num.Driver
 import OxiddModel.Dddmp.Driver
 import OxiddModel.VarNames.Driver
 import OxiddModel.Circuit.Driver
+import OxiddModel.Ffi.Driver
 
 open OxiddModel
 
@@ -25,7 +26,9 @@ def protos : List (String × Proto) := [
   ("nat", OxiddModel.Num.Driver.proto),
   ("dddmp", OxiddModel.Dddmp.proto),
   ("names", OxiddModel.VarNames.proto),
-  ("circ", OxiddModel.Circuit.proto)
+  ("circ", OxiddModel.Circuit.proto),
+  ("capi", OxiddModel.Ffi.proto),
+  ("capi-fixed", OxiddModel.Ffi.protoFixed)
 ]
 
 def main (args : List String) : IO UInt32 := do
